@@ -117,6 +117,40 @@ def weightConversion (W : AMat Rat n) (wcm : String) : Except String (Option (AM
   else if wcm = "lengths" then .ok (some (invert W))
   else .error "NotImplementedError"
 
+/-! ## the `copy` flag: every utility starts with `if copy: W = W.copy()`, then works in place on `W` and returns `W`
+
+A call is described by what the caller can observe afterwards: the content of the array object it passed (`arg`), the content
+of the returned object (`res`) and whether the two are the same object (`aliased`). -/
+
+structure CallOutcome (n : Nat) where
+  arg : AMat Rat n
+  res : AMat Rat n
+  aliased : Bool
+
+/-- `if copy: W = W.copy()`; the in-place computation `f` runs on that `W`; `return W` -/
+def withCopy (copy : Bool) (f : AMat Rat n → AMat Rat n) (W : AMat Rat n) : CallOutcome n :=
+  if copy then { arg := W, res := f W, aliased := false } else { arg := f W, res := f W, aliased := true }
+
+def thresholdAbsoluteCall (W : AMat Rat n) (thr : Rat) (copy : Bool) : CallOutcome n :=
+  withCopy copy (fun M => thresholdAbsolute M thr) W
+def binarizeCall (W : AMat Rat n) (copy : Bool) : CallOutcome n := withCopy copy binarize W
+def invertCall (W : AMat Rat n) (copy : Bool) : CallOutcome n := withCopy copy invert W
+
+/-- `normalize`: `none` = every entry NaN (all-zero input; with `copy=False` the NaNs are written into the argument) -/
+def normalizeCall (W : AMat Rat n) (copy : Bool) : Option (CallOutcome n) :=
+  (normalize W).map fun R => withCopy copy (fun _ => R) W
+
+/-- `threshold_proportional`: the `p` test raises before the copy (argument untouched); otherwise copy, then in place -/
+def thresholdProportionalCall (W : AMat Rat n) (p : Rat) (order : List Nat) (copy : Bool) : Except Err (CallOutcome n) :=
+  (thresholdProportional W p order).map fun R => withCopy copy (fun _ => R) W
+
+/-- `weight_conversion(W, wcm, copy)` passes `copy` on -/
+def weightConversionCall (W : AMat Rat n) (wcm : String) (copy : Bool) : Except String (Option (CallOutcome n)) :=
+  if wcm = "binarize" then .ok (some (binarizeCall W copy))
+  else if wcm = "normalize" then .ok (normalizeCall W copy)
+  else if wcm = "lengths" then .ok (some (invertCall W copy))
+  else .error "NotImplementedError"
+
 /-! ## line protocol -/
 
 def parseRat (s : String) : Option Rat :=
@@ -142,6 +176,9 @@ def parseRMat (n : Nat) (s : String) : Option (AMat Rat n) := do
 
 def showRMat (R : AMat Rat n) : String :=
   if n = 0 then "-" else ",".intercalate ((cells n).map fun c => showRat (R.get c.1 c.2))
+
+def showOutcome (o : CallOutcome n) : String :=
+  s!"R={showRMat o.res} A={showRMat o.arg} alias={if o.aliased then 1 else 0}"
 
 def showOptRMat : Option (AMat Rat n) → String
   | some R => showRMat R | none => "nan"
@@ -187,6 +224,30 @@ def step (line : String) : String :=
       match weightConversion W wcm with
       | .error e => some s!"error={e}"
       | .ok R => some s!"R={showOptRMat R}"
+    | "callsem" =>
+      -- the observable outcome of one call with an explicit copy flag: fn=tabs|binarize|normalize|invert|wconv|tprop copy=0|1
+      let n ← (← lookup kv "n").toNat?
+      let W ← parseRMat n (← lookup kv "W")
+      let cp ← (← lookup kv "copy").toNat?
+      if cp > 1 then none
+      let copy := cp == 1
+      match ← lookup kv "fn" with
+      | "tabs" =>
+        let thr ← parseRat (← lookup kv "thr")
+        some (showOutcome (thresholdAbsoluteCall W thr copy))
+      | "binarize" => some (showOutcome (binarizeCall W copy))
+      | "invert" => some (showOutcome (invertCall W copy))
+      | "normalize" => some (match normalizeCall W copy with | some o => showOutcome o | none => "R=nan")
+      | "wconv" =>
+        let wcm ← lookup kv "wcm"
+        some (match weightConversionCall W wcm copy with
+          | .error e => s!"error={e}" | .ok none => "R=nan" | .ok (some o) => showOutcome o)
+      | "tprop" =>
+        let p ← parseRat (← lookup kv "p")
+        let order ← parseNats (← lookup kv "order")
+        some (match thresholdProportionalCall W p order copy with
+          | .error e => s!"error={e.str}" | .ok o => showOutcome o)
+      | _ => none
     | _ => none
   res.getD "error=protocol"
 
